@@ -388,7 +388,6 @@ contract(
                    "implies(idx[sub_slim_index, 1] != -1, " + _SA("sub_slim_index") + " + " + _SB("sub_slim_index") + " + " + _SC("sub_slim_index") + " == " + _TRI("sub_slim_index") + ")",
                    "implies(idx[sub_slim_index, 1] != -1, norm > 0)",
                    _dw_lin("pixel_weights", "sub_slim_index"), _dw_bary("pixel_weights", "sub_slim_index")]}}},
-    timeout_ms=8000,
     sentence={"c06_cross": "the weights of a sub-pixel are the barycentric coordinates of its source-plane position in the triangle containing it (the nearest vertex alone if outside the hull)"},
 )
 
@@ -574,7 +573,6 @@ contract(
         " and forall(0, V, lambda m: " + _D2("toint(pix_indexes_for_sub_slim_index[q, 0])", "q") + " <= " + _D2("m", "q")
         + " and implies(m < toint(pix_indexes_for_sub_slim_index[q, 0]), " + _D2("toint(pix_indexes_for_sub_slim_index[q, 0])", "q") + " < " + _D2("m", "q") + "))))",
         "forall(i, S, lambda q: pix_indexes_for_sub_slim_index[q, 0] == -1 and pix_indexes_for_sub_slim_index[q, 1] == -1 and pix_indexes_for_sub_slim_index[q, 2] == -1)"]}},
-    timeout_ms=8000,
     sentence={"forall": "a sub-pixel maps to the three vertices of the simplex containing it, or to the nearest vertex alone if outside the hull"},
 )
 
